@@ -109,7 +109,10 @@ def run(tier):
             unc = sig if kind == "logistic" else scale
             forms = [dict(y_data=[float(v) for v in y], unc=[float(v) for v in unc]), dict(y_data=y.reshape(-1, 1), unc=np.asarray(unc).reshape(-1, 1)),
                      dict(y_data=y.copy(), unc=[[float(v)] for v in unc]), dict(y_data=y.reshape(1, -1), unc=np.asarray(unc).reshape(1, -1))]
-            f_ = forms[(ci // 5) % 4]
+            if np.all(np.asarray(unc) == np.round(unc)) and np.all(np.asarray(unc) < 200) and np.all(np.asarray(unc) >= 1):
+                # whole-number uncertainties in narrow integer types (their squares do not fit the type)
+                forms += [dict(y_data=y.copy(), unc=np.asarray(unc).astype(np.uint8)), dict(y_data=y.copy(), unc=np.asarray(unc).astype(np.int16))]
+            f_ = forms[(ci // 5) % len(forms)]
             try:
                 L2 = type(L)(y_data=f_["y_data"], forward_model=model, forward_model_jacobian=model.jac,
                              **({"gamma": f_["unc"]} if kind == "cauchy" else {"sigma": f_["unc"]}))
